@@ -177,8 +177,10 @@ def check_forms(ctx):
             num = v.left
             if isinstance(num, ast.Call) and A.last_attr(num) in ("sum", "count_nonzero"):
                 inner = num.func.value if isinstance(num.func, ast.Attribute) and not (A.call_name(num) or "").startswith("np.") else num.args[0]
-                if isinstance(inner, ast.Compare) and canon(inner) == canon(parse("H > 0")).replace("H", canon(inner.left)):
-                    h = inner.left
+                from ..norm import cmp_parts
+                cp = cmp_parts(inner) if isinstance(inner, ast.Compare) else None   # orientation-free: H > 0, 0 < H, H != 0, H >= 1
+                if cp is not None and ((cp[0] in (">", "!=") and A.const_value(cp[2]) == 0) or (cp[0] == ">=" and A.const_value(cp[2]) == 1) or (cp[0] == "!=" and A.const_value(cp[1]) == 0)):
+                    h = cp[1] if A.const_value(cp[1]) is None else cp[2]
                     if isinstance(h, ast.Subscript) and A.const_value(h.slice) == 0 and isinstance(h.value, ast.Call) and (A.call_name(h.value) or "") == "np.histogram":
                         hc = h.value
                         bins = A.get_arg(hc, 1, "bins")
